@@ -43,20 +43,21 @@ PLAN = {
                  ("avr", "random", 200)],
 }
 BOUNDS = {
-    "quick": {"programs": "corpus/c3progs.py for x86_64 (int = 32 bit, ptr = 64 bit): the same-type rows of the operator "
-                          "matrix for int/byte/int64_t/uint16_t, 28 sampled mixed-type matrix programs (4 programs per "
-                          "operand-type pair: 6 wrap-around operators, / %, << >>, 6 comparisons), 24 sampled conversion / "
-                          "unary / literal-operand / compound-assignment programs, all 46 short-circuit programs (evaluation "
-                          "trace in a global), all control-flow (29), call (14), pointer/struct/array (22), constant / "
-                          "initialiser / literal (27), precedence (18) programs, 30 seeded random programs (nesting <= 2)",
-              "symbolic": "every argument of the entry function and the initial value of every global without initialiser, "
-                          "over the full range of its declared type (bool: {false, true})",
+    "quick": {"programs": "corpus/c3progs.py for x86_64 (int = 32 bit, ptr = 64 bit), 284 programs: operator matrix (4 programs "
+                          "per ordered operand-type pair: 6 wrap-around operators, / %, << >>, 6 comparisons): the same-type "
+                          "pairs of int/byte/int64_t/uint16_t + 28 sampled mixed-type programs; all 8 cast, 8 implicit-conversion, "
+                          "8 unary, 6 literal-operand programs (one per integer type) and 12 sampled compound-assignment programs; "
+                          "all 48 short-circuit / bool programs (evaluation trace in a global), 35 control-flow, 14 call, "
+                          "26 pointer/struct/array/initialiser, 27 constant / global-initialiser / literal, 18 precedence "
+                          "programs; 30 seeded random programs (nesting <= 2, <= 2 loops)",
+              "symbolic": "every argument of the entry function and the initial value of every scalar / array global without "
+                          "initialiser, over the full range of its declared type (bool: {false, true})",
               "unwinding": "loops are bounded by construction (<= 4 iterations, nesting <= 2); 6000 IR instructions, 300 "
                            "decisions per path; cut paths are counted (none expected)"},
-    "thorough": {"programs": "x86_64: the complete enumerated part (44 accepted ordered operand-type pairs x 4 matrix programs, "
-                             "all conversion programs, ...) + 1200 seeded random programs; msp430 (int = 16 bit, ptr = 16 bit): "
-                             "complete enumerated part for 16-bit int + 300 random; arm, riscv (32/32): 300 random each; avr "
-                             "(16/16): 200 random",
+    "thorough": {"programs": "x86_64: the complete enumerated part (414 programs: all 44 accepted ordered operand-type pairs x 4 "
+                             "matrix programs, all 40 compound-assignment programs, ...) + 1200 seeded random programs; msp430 "
+                             "(int = 16 bit, ptr = 16 bit): complete enumerated part for 16-bit int (413) + 300 random; arm, "
+                             "riscv (32/32): 300 random each; avr (16/16): 200 random",
                  "symbolic": "as quick", "unwinding": "12000 IR instructions, 400 decisions per path"},
 }
 OUTSIDE = ["floating point (float/double), strings, function pointers, imports between modules, volatile",
